@@ -157,6 +157,10 @@ fn mon_c03(snap: &Snap, limit: usize, armed: &mut BTreeMap<String, u64>) -> Vec<
 }
 
 fn mon_c01(snap: &Snap, armed: &mut BTreeMap<String, u64>) -> Vec<(String, String)> {
+    mon_c01_cfg(snap, None, armed)
+}
+
+fn mon_c01_cfg(snap: &Snap, cfg: Option<&Config>, armed: &mut BTreeMap<String, u64>) -> Vec<(String, String)> {
     let mut out = vec![];
     let mut services_called = std::collections::BTreeSet::new();
     for (step, _, r) in &snap.log {
@@ -165,8 +169,9 @@ fn mon_c01(snap: &Snap, armed: &mut BTreeMap<String, u64>) -> Vec<(String, Strin
             match conn {
                 None => out.push(("C01:unidentified-connection-served".to_string(), format!("step {step}: a service was called with a stream that is none of the clients' connections"))),
                 Some(c) => {
-                    if snap.conns[*c].listener != *svc {
-                        out.push(("C01:wrong-service".to_string(), format!("step {step}: connection {c} accepted on listener {} was handed to the service of listener {svc} (worker slot {slot})", snap.conns[*c].listener)));
+                    let want_svc = cfg.map_or(snap.conns[*c].listener, |k| k.svc_of(snap.conns[*c].listener));
+                    if want_svc != *svc {
+                        out.push(("C01:wrong-service".to_string(), format!("step {step}: connection {c}, made to socket {} (which belongs to service {want_svc}), was handed to service {svc} (worker slot {slot})", snap.conns[*c].listener)));
                     }
                 }
             }
@@ -986,7 +991,7 @@ impl Spec for SpecImpl {
     }
     fn check(&self, snap: &Snap, armed: &mut BTreeMap<String, u64>) -> Vec<(String, String)> {
         match self.prop {
-            "C01" => mon_c01(snap, armed),
+            "C01" => mon_c01_cfg(snap, Some(&self.cfg), armed),
             "C02" => mon_c02(snap, self.cfg.limit, armed),
             "C03" => mon_c03(snap, self.cfg.limit, armed),
             "C04" => mon_c04(snap, self.cfg.workers, self.cfg.limit, armed),
@@ -1067,6 +1072,9 @@ fn specs_for(prop: &'static str, tier: Tier) -> Vec<SpecImpl> {
                 v.push(mk(cfg(2, &[Uds], 1), Bounds { connects: 2, kills: 2, completes: false, ..Default::default() }));
                 // a service future panics
                 v.push(mk(cfg(1, &[Uds], 2), Bounds { connects: 3, conn_panics: 1, ..Default::default() }));
+                // one bind() call with two addresses, then another listener: every connection reaches
+                // the service of the listener it was made to
+                v.push(mk(cfg(1, &[Tcp, TcpBindSecond, Tcp], 3), Bounds { connects: 3, connect_listeners: vec![0, 1, 2], ..Default::default() }));
                 // the accept loop runs while a dying worker is being taken apart
                 v.push(mk(cfg(2, &[Uds], 1), Bounds { connects: 3, kills: 1, nested: 1, ..Default::default() }));
             } else {
